@@ -112,9 +112,9 @@ def run(ctx, n):
             for c in m.children:
                 if c.name.startswith("#GEN_INT"):
                     nblocks += 1
-                    cs.append("(CBlock %d%%Z %s)" % (c.def_vis, clist(list(c.children), lambda e: "(EN %s %d%%Z %s)" % (cstr(e.name.lower()), e.vis, cnat(e.sline)))))
+                    cs.append("(CBlock (%d)%%Z %s)" % (c.def_vis, clist(list(c.children), lambda e: "(EN %s (%d)%%Z %s)" % (cstr(e.name.lower()), e.vis, cnat(e.sline)))))
                 else:
-                    cs.append("(CEnt (EN %s %d%%Z %s))" % (cstr(c.name.lower()), c.vis, cnat(c.sline)))
+                    cs.append("(CEnt (EN %s (%d)%%Z %s))" % (cstr(c.name.lower()), c.vis, cnat(c.sline)))
             for name in NAMES + ["blk%d" % k]:
                 got = find_in_scope(usr[0], name, srv.obj_tree)
                 if name == "blk%d" % k:
@@ -123,7 +123,7 @@ def run(ctx, n):
                 if got is not None:
                     g = got.sline if os.path.basename(got.file_ast.path) == "blk%d.f90" % k else -1
                 ctx.count(("blocks", k, name, m.def_vis, nblocks), nblocks > 0, sample={"text": text[:500], "name": name})
-                exprs.append("onat_eqb (blk_ans %d%%Z [%s] %s) %s" % (m.def_vis, "; ".join(cs), cstr(name),
+                exprs.append("onat_eqb (blk_ans (%d)%%Z [%s] %s) %s" % (m.def_vis, "; ".join(cs), cstr(name),
                                                                     "None" if g is None else "(Some %s)" % cnat(max(g, 0))))
                 meta.append({"text": text, "name": name, "implementation": g})
                 # ground truth by Fortran's rules, from the generator: accessible iff declared and public under the module's rules
